@@ -1,10 +1,16 @@
 import Poulpy.Driver.Util
 import Poulpy.Model.BlindSel
+import Poulpy.Model.Lut
 /-
 Driver of the blind selection / retrieval model (C15).  Request `id blindsel <sub-op> k=v …`:
   `retr bits= rsh= idxword= data=<w,…>`   → `ok fwd=<w,…> rev=<w,…>` (statefull forward pass, then the reverse pass on its result)
   `retr1 size= rsh= idxword= data=<w,…>`  → `ok <w>` | `panic:<class>` (GLWEBlindRetriever::alloc(size) + retrieve, offset = rsh)
   `sel bits= rsh= idxword= keys=<k,…> vals=<w,…>` → `ok <w>` (glwe_blind_selection on the sparse table keys ↦ vals)
+  `hist size= rsh= idxword= streams=<w,…|w,…|-|…> modes=<0|1,…>` → `ok <v1>,<v2>,…` | `panic:<class>`: one retriever
+      (`alloc(size)`), the listed streams in order (mode 1 = through `retrieve`, 0 = `add`… `flush`), the element
+      returned by each
+  `brot sign= rsh= mask= lsh= idxword= pt=<coefficients>` → `ok <coefficients>`: `glwe_blind_rotation_assign` on the
+      plaintext polynomial (negacyclic `glwe_rotate`, scratch buffer filled with garbage)
 Plaintext contracts: `cswap` swaps iff the bit is 1; `cmux_assign(lo, hi, s)` = `lo` if `s` else `hi`;
 `cmux_assign_neg(res, a, s)` = `a` if `s` else `res`.
 -/
@@ -31,6 +37,23 @@ def handle (ts : List String) : String :=
     let keys := kvNats kv "keys"; let vals := kvNats kv "vals"
     let tbl : Nat → Option Nat := fun j => (List.zip keys vals).findSome? fun (k, v) => if k = j then some v else none
     s!"ok {blindSelection cm 0 (kvNat kv "idxword") (kvNat kv "rsh") (kvNat kv "bits") tbl}"
+  | "hist" :: kv =>
+    let streams : List (List Nat) := (((Drv.kv kv "streams").getD "").splitOn "|").map fun s => nats s
+    let modes := kvNats kv "modes"
+    let idx := kvNat kv "idxword"; let off := kvNat kv "rsh"
+    let h := List.zip (modes.map (· == 1)) streams
+    match Retr.history cmn (fun k => idx.testBit (k + off)) 0 (Retr.alloc 0 (kvNat kv "size")) h with
+    | .ok vs => s!"ok {showNats vs}"
+    | .panic c => s!"panic:{c}"
+    | .err e => s!"err:{e}"
+  | "brot" :: kv =>
+    let pt := kvInts kv "pt"
+    let rotI : Int → List Int → List Int := fun k p => (Lut.rotate k (p.map fun x => [x])).map fun v => v.headD 0
+    let cmI : Bool → List Int → List Int → List Int := fun b t f => if b then t else f
+    let idx := kvNat kv "idxword"
+    let r := blindRotationAssign rotI cmI (kvNat kv "sign" == 1) (fun k => idx.testBit k) (kvNat kv "rsh") (kvNat kv "mask")
+      (kvNat kv "lsh") pt (pt.map fun _ => 77)
+    "ok " ++ showInts r
   | _ => "bad-op"
 
 end Drv.Blindsel
